@@ -2,6 +2,7 @@
 property oracle (true pairs only / nearly all pairs / held-out error / drift) measured on random trains."""
 import json
 import math
+import signal
 import warnings
 
 import numpy as np
@@ -27,6 +28,33 @@ TRUSTED = [
     "extraction (ExtrOcamlBasic only), harness/driver.ml, ocamlfind ocamlopt; a sample of the same cases is "
     "re-evaluated by the kernel (vm_compute)",
 ]
+
+CALL_LIMIT_S = 30          # one implementation call (unchanged code: milliseconds)
+_TIMEOUTS = {"n": 0}
+
+
+class _CallTimeout(BaseException):
+    pass
+
+
+class time_limit:
+    """SIGALRM-based limit for one call of the implementation (pure Python/NumPy loops are interruptible)."""
+
+    def __init__(self, seconds):
+        self.seconds = seconds
+
+    def _raise(self, signum, frame):
+        raise _CallTimeout("call exceeded %d s" % self.seconds)
+
+    def __enter__(self):
+        self.old = signal.signal(signal.SIGALRM, self._raise)
+        signal.setitimer(signal.ITIMER_REAL, self.seconds)
+
+    def __exit__(self, *a):
+        signal.setitimer(signal.ITIMER_REAL, 0)
+        signal.signal(signal.SIGALRM, self.old)
+        return False
+
 
 GRID = 2.0 ** -30          # all generated times are multiples of this (exact in float64 and < 2^62 as numerators)
 SLOPE_SCALE = 10 ** 18
@@ -126,16 +154,22 @@ class _NpProxy:
 
     def where(self, *a, **k):
         r = self._rec
-        if r.get("polyfit_calls", 0) == 1 and "miss_mask" not in r and len(a) == 1:
-            m = np.asarray(a[0])
-            if m.dtype == bool and m.shape == (self._na,):
-                r["miss_mask"] = m.copy()
+        try:
+            if r.get("polyfit_calls", 0) == 1 and "miss_mask" not in r and len(a) == 1:
+                m = np.asarray(a[0])
+                if m.dtype == bool and m.shape == (self._na,):
+                    r["miss_mask"] = m.copy()
+        except Exception:      # noqa
+            pass
         return np.where(*a, **k)
 
     def setxor1d(self, a, b, *aa, **k):
         r = self._rec
-        if r.get("polyfit_calls", 0) == 1 and "used_b" not in r:
-            r["used_b"] = np.array(b).copy()
+        try:
+            if r.get("polyfit_calls", 0) == 1 and "used_b" not in r:
+                r["used_b"] = np.array(b).copy()
+        except Exception:      # noqa
+            pass
         return np.setxor1d(a, b, *aa, **k)
 
 
@@ -150,7 +184,7 @@ def impl_run(case):
 
     def pm(x):
         r = orig_pm(x)
-        n = (x.shape[-1] + 1) // 2
+        n = (np.shape(x)[-1] + 1) // 2
         ipeak = r[0] if forced is None else np.float64(n - 1 + forced)
         rec["ipeak"], rec["n"] = ipeak, n
         try:      # instrumentation must never disturb the call
@@ -165,34 +199,82 @@ def impl_run(case):
         return ipeak, r[1]
 
     res = {"status": "ok"}
+    ret = None
+    if _TIMEOUTS["n"] >= 3:
+        return {"status": "exc", "exc": "TimeoutError", "msg": "not run: three earlier calls exceeded the time limit"}
     try:
         utils.parabolic_max = pm
         utils.np = _NpProxy(rec, len(tsa))
-        with warnings.catch_warnings():
+        with warnings.catch_warnings(), time_limit(CALL_LIMIT_S):
             warnings.simplefilter("ignore")
-            fcn, drift, ia, ib = utils.sync_timestamps(tsa, tsb, tbin=tbin, return_indices=True, linear=linear)
-            fq = [float(v) for v in np.atleast_1d(fcn(np.array(case["queries"], dtype=np.float64)))]
-    except Exception as e:        # noqa
-        res = {"status": "exc", "exc": type(e).__name__, "msg": str(e)[:200]}
-        fcn = None
+            ret = utils.sync_timestamps(tsa, tsb, tbin=tbin, return_indices=True, linear=linear)
+            fcn, drift, ia, ib = ret
+            fq = fcn(np.array(case["queries"], dtype=np.float64))
+    except BaseException as e:        # noqa  (whatever the implementation raises is an observation, not a harness crash)
+        if isinstance(e, KeyboardInterrupt):
+            raise
+        if isinstance(e, _CallTimeout):
+            _TIMEOUTS["n"] += 1
+        res = {"status": "exc", "exc": "TimeoutError" if isinstance(e, _CallTimeout) else type(e).__name__,
+               "msg": str(e)[:200]}
     finally:
         utils.parabolic_max, utils.np = orig_pm, orig_np
-    if "ipeak" in rec:
-        # same float expression as the source: (parabolic_max(...)[0] - x.shape[0] + 1) * tbin
-        res["delta"] = float((rec["ipeak"] - rec["n"] + 1) * tbin)
-        res["n"], res["corr"] = int(rec["n"]), rec.get("corr")
-    if "miss_mask" in rec and "used_b" in rec and int((~rec["miss_mask"]).sum()) == len(rec["used_b"]):
-        ib1 = np.full(len(tsa), -1, dtype=np.int64)
-        ib1[~rec["miss_mask"]] = rec["used_b"]
-        res["ib1"] = [int(v) for v in ib1]
+    # inputs must come back untouched (the model is a pure function)
+    try:
+        res["inputs_untouched"] = bool(np.array_equal(tsa, np.array(case["tsa"], dtype=np.float64)) and
+                                       np.array_equal(tsb, np.array(case["tsb"], dtype=np.float64)))
+    except Exception:      # noqa
+        res["inputs_untouched"] = False
+    try:
+        if "ipeak" in rec:
+            # same float expression as the source: (parabolic_max(...)[0] - x.shape[0] + 1) * tbin
+            ipk = rec["ipeak"]
+            if isinstance(ipk, (int, float, np.integer, np.floating)) and np.isfinite(ipk):
+                res["delta"] = float((ipk - rec["n"] + 1) * tbin)
+                res["n"], res["corr"] = int(rec["n"]), rec.get("corr")
+        if "miss_mask" in rec and "used_b" in rec and int((~rec["miss_mask"]).sum()) == len(rec["used_b"]):
+            ib1 = np.full(len(tsa), -1, dtype=np.int64)
+            ib1[~rec["miss_mask"]] = rec["used_b"]
+            res["ib1"] = [int(v) for v in ib1]
+    except Exception:      # noqa  (instrumentation only)
+        res.pop("ib1", None)
     if res["status"] == "ok":
-        full = np.full(len(tsa), -1, dtype=np.int64)
-        full[np.asarray(ia)] = np.asarray(ib)
-        res["ib"] = [int(v) for v in full]
-        res["ia_sorted_unique"] = bool(np.all(np.diff(np.asarray(ia)) > 0))
-        res["drift"] = float(drift)
-        res["fq"] = fq
+        why = validate_return(drift, ia, ib, fq, len(tsa), len(tsb), len(case["queries"]))
+        if why:
+            res = dict(res, status="malformed", msg=why)
+        else:
+            full = np.full(len(tsa), -1, dtype=np.int64)
+            full[ia] = ib
+            res["ib"] = [int(v) for v in full]
+            res["ia_sorted_unique"] = bool(np.all(np.diff(ia) > 0))
+            res["drift"] = float(drift)
+            res["fq"] = [float(v) for v in np.asarray(fq).ravel()]
     return res
+
+
+def validate_return(drift, ia, ib, fq, na, nb, nq):
+    """None when (drift, ia, ib, fcn(queries)) have the documented types/shapes, else a description."""
+    try:
+        for name, a, hi in (("ia", ia, na), ("ib", ib, nb)):
+            if not isinstance(a, np.ndarray):
+                return "%s is a %s, not a numpy array" % (name, type(a).__name__)
+            if a.ndim != 1:
+                return "%s has shape %s" % (name, a.shape)
+            if not np.issubdtype(a.dtype, np.integer):
+                return "%s has dtype %s" % (name, a.dtype)
+            if a.size and (a.min() < 0 or a.max() >= hi):
+                return "%s has an index outside [0, %d)" % (name, hi)
+        if ia.shape != ib.shape:
+            return "ia and ib have different lengths %s / %s" % (ia.shape, ib.shape)
+        if isinstance(drift, (str, bytes, list, tuple, dict)) or np.ndim(drift) != 0 or \
+                not np.issubdtype(np.asarray(drift).dtype, np.number) or np.iscomplexobj(drift):
+            return "drift is %r" % (type(drift).__name__,)
+        f = np.asarray(fq)
+        if not isinstance(fq, np.ndarray) or f.shape != (nq,) or not np.issubdtype(f.dtype, np.floating):
+            return "fcn(queries) is %s of shape %s dtype %s" % (type(fq).__name__, f.shape, f.dtype)
+        return None
+    except Exception as e:      # noqa
+        return "return value cannot be inspected: %r" % (e,)
 
 
 # --------------------------------------------------------------------------
@@ -202,29 +284,35 @@ def q30(x):
     return round(x / GRID) * GRID
 
 
-def gen_natural(rng, small=False, integer_span=False, flavour=None):
+def gen_natural(rng, small=False, integer_span=False, flavour=None, light=False):
     """A train of the property's quantifier: 30..300 events, irregular spacing in [0.5, 10] s,
     drift in [-100, 100] ppm, offset up to minutes of either sign, 0..5 events missing on each side
     at any position, jitter up to 0.1 ms, both modes.  Ground truth labels kept."""
     n = rng.choice([30, 31, 50, 300]) if rng.random() < 0.15 else rng.randrange(30, 301)
+    if light and rng.random() < 0.65:      # quick tier: most trains short (model cost grows with the square), a third long
+        n = rng.randrange(30, 121)
     if small:
         n = rng.randrange(30, 61)
     lo, hi = rng.choice([(0.5, 10.0), (0.5, 10.0), (0.5, 1.0), (5.0, 10.0), (0.5, 3.0)])
     if flavour == "long_drift":        # the first pass misses the train's ends, the second pass has real work
         n, (lo, hi) = rng.randrange(270, 301), (7.0, 10.0)
+    if flavour == "long_drift_light":
+        n, (lo, hi) = rng.randrange(270, 301), (7.0, 9.0)
     t0 = rng.choice([0.0, rng.uniform(0, 1000.0), rng.uniform(0, 20000.0)])
     t = t0 + np.cumsum([rng.uniform(lo, hi) for _ in range(n)])
     drift = rng.choice([0.0, 100.0, -100.0, rng.uniform(-100, 100), rng.uniform(-100, 100), rng.uniform(-20, 20)])
     off = rng.choice([0.0, rng.uniform(-1, 1), rng.uniform(-300, 300), rng.uniform(-300, 300), rng.uniform(-30, 30)])
     if flavour == "long_drift":
         drift = rng.choice([-1, 1]) * rng.choice([85.0, 100.0, rng.uniform(85, 100)])
+    if flavour == "long_drift_light":  # drift*span just above 2*tbin: ~10 % of the events left to the second pass (cheap model run)
+        drift = rng.choice([-1, 1]) * min(100.0, max(85.0, 1e6 * rng.uniform(0.21, 0.24) / (t[-1] - t[0])))
     jmax = rng.choice([0.0, 1e-4, 1e-4, 1e-5, rng.uniform(0, 1e-4)])
     jit_a = rng.random() < 0.3
     ta = np.array([q30(v + (rng.uniform(-jmax, jmax) if jit_a else 0.0)) for v in t])
     tb = np.array([q30(v * (1 + drift * 1e-6) + off + rng.uniform(-jmax, jmax)) for v in t])
     ka, kb = rng.randrange(0, 6), rng.randrange(0, 6)
     pos = rng.random()
-    if flavour == "long_drift":        # missing events on both sides, different numbers: non-square candidate matrix
+    if flavour in ("long_drift", "long_drift_light"):        # missing events on both sides, different numbers: non-square candidate matrix
         ka = rng.randrange(1, 6)
         kb = rng.choice([k for k in range(1, 6) if k != ka])
         pos = rng.choice([0.1, 0.1, 0.3, 0.9])
@@ -346,9 +434,21 @@ def gen_parabolic(rng):
 
 def impl_parabolic(xs):
     from ibldsp import utils
-    with warnings.catch_warnings():
-        warnings.simplefilter("ignore")
-        ip, mx = utils.parabolic_max(np.array(xs, dtype=np.float64))
+    if _TIMEOUTS["n"] >= 3:
+        raise TimeoutError("not run: three earlier calls exceeded the time limit")
+    arr = np.array(xs, dtype=np.float64)
+    try:
+        with warnings.catch_warnings(), time_limit(CALL_LIMIT_S):
+            warnings.simplefilter("ignore")
+            r = utils.parabolic_max(arr)
+    except _CallTimeout as e:
+        _TIMEOUTS["n"] += 1
+        raise TimeoutError(str(e))
+    if not np.array_equal(arr, np.array(xs, dtype=np.float64)):
+        raise ValueError("parabolic_max modified its input")
+    if not isinstance(r, tuple) or len(r) != 2 or any(np.ndim(v) != 0 or isinstance(v, (str, bytes)) for v in r):
+        raise ValueError("parabolic_max returned %s instead of two scalars" % (type(r).__name__,))
+    ip, mx = r
     return float(ip), float(mx)
 
 
@@ -458,7 +558,8 @@ def compare(case, res, mod):
         # fewer than two distinct matched abscissae: numpy raises or warns; outside the domain, nothing compared
         return dis, [0], flags
     if res["status"] != "ok":
-        return ["implementation raised %s(%s) where the model returns a result" % (res["exc"], res.get("msg"))], None, flags
+        return ["implementation %s (%s) where the model returns a result"
+                % ("raised " + str(res.get("exc")) if res["status"] == "exc" else "returned a malformed result", res.get("msg"))], None, flags
     exact1 = case.get("exact_float_pass1", False)
     skip1 = bool(mod["frag1"]) and not exact1
     skip2 = skip1 or bool(mod["frag2"])
@@ -494,15 +595,16 @@ def run(ctx):
     common.proof_obligations(ctx, whitelist=[])
     rng = ctx.rng
     thorough = ctx.thorough()
-    n_nat = 1500 if thorough else 140
+    n_nat = 1600 if thorough else 100
     n_bnd = 12000 if thorough else 1500
-    n_int = 150 if thorough else 25
-    n_long = 40 if thorough else 4
-    n_ends = 150 if thorough else 20
-    cases = [gen_natural(rng) for _ in range(n_nat)] + [gen_boundary(rng) for _ in range(n_bnd)] + \
+    n_int = 150 if thorough else 15
+    n_long = 45 if thorough else 1
+    n_ends = 150 if thorough else 15
+    cases = [gen_natural(rng, light=not thorough) for _ in range(n_nat)] + [gen_boundary(rng) for _ in range(n_bnd)] + \
             [gen_integer_span(rng) for _ in range(n_int)] + \
             [gen_boundary(rng, free=True) for _ in range(n_bnd // 3)] + \
             [gen_natural(rng, flavour="long_drift") for _ in range(n_long)] + \
+            [gen_natural(rng, flavour="long_drift_light") for _ in range(40 if thorough else 5)] + \
             [gen_natural(rng, flavour="ends_missing", small=rng.random() < 0.5) for _ in range(n_ends)]
     meas = {}
     dist = {"natural": 0, "boundary": 0, "boundary_free": 0, "integer_span": 0, "coarse_offset_compared": 0,
@@ -512,6 +614,9 @@ def run(ctx):
             "second_pass_compare_skipped_near_threshold": 0, "second_pass_assigned_something": 0,
             "model_skipped_huge_second_pass": 0, "events_min": 10 ** 9, "events_max": 0}
     inputs, keep, results, pending = [], [], [], []
+    # the model's second pass is cubic in the number of events the first pass leaves unassigned; unchanged code needs
+    # < 1e6 (quick) / < 2e7 (thorough) in total, a broken first pass would need hours
+    cost_total, cost_budget = 0, (60_000_000 if thorough else 1_500_000)
     nontrivial = set()
     for ci, case in enumerate(cases):
         res = impl_run(case)
@@ -523,7 +628,16 @@ def run(ctx):
         dist["events_max"] = max(dist["events_max"], len(case["tsa"]))
         if res["status"] == "exc":
             dist["impl_exceptions"] += 1
-        if case["kind"] in ("natural", "integer_span"):
+        domain = case["kind"] in ("natural", "integer_span")
+        report = ctx.fail if domain else ctx.disagree
+        if not res.get("inputs_untouched", True):
+            report("sync_timestamps modified its input arrays", slim(case), {"kind": "input_modified"})
+            continue
+        if res["status"] == "malformed":
+            dist["impl_malformed_returns"] = dist.get("impl_malformed_returns", 0) + 1
+            report("sync_timestamps returned a malformed result: %s" % res.get("msg"), slim(case), {"kind": "malformed"})
+            continue
+        if domain:
             # the property: the call succeeds on every train of the domain and its outputs satisfy the oracle
             if res["status"] == "exc":
                 ctx.fail("sync_timestamps raised %s: %s" % (res["exc"], res.get("msg")), slim(case),
@@ -549,7 +663,9 @@ def run(ctx):
             nbm = len(case["tsb"]) - len({j for j in res["ib1"] if j >= 0})
             cost = nam * nbm * min(nam, nbm)
             meas["max_second_pass_matrix_cost"] = max(meas.get("max_second_pass_matrix_cost", 0), cost)
-            if cost > 2_000_000:
+            cost_total += cost
+            if cost > 2_000_000 or (cost > 20_000 and cost_total > cost_budget):
+                cost_total -= cost
                 dist["model_skipped_huge_second_pass"] += 1
                 continue
         pending.append((ci, res))
@@ -633,8 +749,10 @@ def run(ctx):
     for xs, mo in zip(par_in, par_out):
         try:
             ip, mx = impl_parabolic(xs)
-        except Exception as e:      # noqa
-            ctx.disagree("parabolic_max raised %r" % (e,), {"kind": "parabolic", "x": xs})
+        except BaseException as e:      # noqa
+            if isinstance(e, KeyboardInterrupt):
+                raise
+            ctx.disagree("parabolic_max: %r" % (e,), {"kind": "parabolic", "x": xs})
             continue
         imax = int(np.argmax(xs))
         interior = 0 < imax < len(xs) - 1
@@ -736,8 +854,11 @@ def replay(ctx, data):
     res = impl_run(case)
     print("implementation:", {k: (v if not isinstance(v, list) else v[:12]) for k, v in res.items()})
     rc = 0
-    if res["status"] == "exc":
-        print("implementation raised", res["exc"], res.get("msg"))
+    if not res.get("inputs_untouched", True):
+        print("implementation modified its input arrays")
+        rc = 1
+    if res["status"] != "ok":
+        print("implementation", "raised " + str(res.get("exc")) if res["status"] == "exc" else "returned a malformed result:", res.get("msg"))
         rc = 1
     elif case.get("truth"):
         bad = oracle(case, res, {})
